@@ -235,7 +235,7 @@ impl Prop for C08 {
     fn rule(&self) -> &'static str {
         "28 markup payloads (script, style/text/svg/g end tags, attributes, CDATA, comments, PIs, entity and character references, doctype, namespaces, control characters, legend break-out), each with a unique marker, \
          and every string up to length 3 (thorough 4) over {<,>,&,\",',/,!,-,?,;,=,a,space}, in each of 5 channels (plain cells, quoted string, {tag}, legend name, legend declaration) x 4 contexts (alone, inside a box so a tag attaches, touching a line, split over two rows), \
-         with default settings; the payloads additionally through to_svg, the compressed form and to_svg_with_override_size. Each output must parse, contain no comment/PI/CDATA/doctype, use only svgbob's element and attribute vocabulary in svgbob's nesting and order, have every attribute value match its numeric/path/points/identifier grammar, \
+         with default settings; the payloads additionally through to_svg, the compressed form and to_svg_with_override_size, and with every combination of the three include_* switches. Each output must parse, contain no comment/PI/CDATA/doctype, use only svgbob's element and attribute vocabulary in svgbob's nesting and order, have every attribute value match its numeric/path/points/identifier grammar, \
          and show the marker only in character data of text/style or as a class token. distinct_nontrivial = distinct (channel, context, element multiset) outcomes"
     }
     fn scopes(&self, tier: Tier, _seed: u64) -> Vec<Scope> {
@@ -287,6 +287,18 @@ impl Prop for C08 {
                     check_document(cx, &o, &marker, &format!("{} via {:?}", what, e));
                     if cx.viols.len() > nv {
                         return;
+                    }
+                }
+            }
+            // and every combination of the include_* switches (a sink that is skipped by one path must not come back raw by another)
+            for m in 0..7u8 {
+                let s = Sett { backdrop: m & 1 != 0, styles: m & 2 != 0, defs: m & 4 != 0, ..Sett::default_() };
+                for e in [Entry::WithSettings, Entry::OverrideSize(640.0, 480.0)] {
+                    if let Some(o) = cx.conv_entry(&input, &s, e) {
+                        check_document(cx, &o, &marker, &format!("{} via {:?} with backdrop={} styles={} defs={}", what, e, s.backdrop, s.styles, s.defs));
+                        if cx.viols.len() > nv {
+                            return;
+                        }
                     }
                 }
             }
